@@ -236,7 +236,16 @@ def build_harness(log):
     rc, out, dt = run(["go", "build", "-tags", "verif", "-o", os.path.join(BIN, "harness"), "."],
                       cwd=os.path.join(VERIF, "harness"), env=GOENV, timeout=900)
     log.write(out)
+    if rc == 0 and pid_needs_race[0]:
+        env = dict(GOENV, CGO_ENABLED="1")
+        rc, out2, dt2 = run(["go", "build", "-race", "-tags", "verif", "-o", os.path.join(BIN, "harness-race"), "."],
+                            cwd=os.path.join(VERIF, "harness"), env=env, timeout=1800)
+        log.write(out2)
+        out, dt = out + out2, dt + dt2
     return rc == 0, out[-1500:], dt
+
+
+pid_needs_race = [False]
 
 
 def build_driver(log):
@@ -387,6 +396,7 @@ def main():
     os.makedirs(BIN, exist_ok=True)
     log = open(os.path.join(work, "check.log"), "w")
     prop = PROPS[pid]
+    pid_needs_race[0] = bool(prop.get("race_binary"))
     broken = []  # (leg, description, detail)
     legs = {}
 
